@@ -18,12 +18,12 @@ def ret_default(ret_c):
     return "{ static %s verif_zero; return verif_zero; }" % r
 
 
-def c_params(params, ref_out, self_type=None, param_types=None):
+def c_params(params, ref_out, self_type=None, param_types=None, self_name="self"):
     """Translate a C++ parameter list.  Non-const references become pointers (names are
     appended to ref_out), const references are passed by value, defaults are dropped."""
     out = []
     if self_type:
-        out.append("%s *self" % self_type)
+        out.append("%s *%s" % (self_type, self_name))
     for p in split_top(params, angle=True):
         p = " ".join(p.split())
         if not p:
@@ -35,8 +35,6 @@ def c_params(params, ref_out, self_type=None, param_types=None):
         ty, nm = m.group(1).strip(), m.group(2)
         if param_types and nm in param_types:
             t = param_types[nm]
-            if t.endswith("*") and not ty.endswith("*") and "&" in ty and not ty.startswith("const"):
-                ref_out.append(nm)
             if t == "REF":      # explicit: pointer to same base type
                 base = ty.replace("&", "").strip()
                 out.append("%s *%s" % (base, nm))
@@ -64,7 +62,7 @@ CAST_TYPES = r"Scalar|RealScalar|Index|QScalar"
 
 
 def body_to_c(fn, R, members=(), ref_params=(), ret_c="void", extra_rules=(), maythrow=(),
-              cast_types=CAST_TYPES, member_prefix="self->", pre_rules=()):
+              cast_types=CAST_TYPES, member_prefix="self->", pre_rules=(), post_fn=None):
     """Apply the sidecar's pre-rules, the generic idiom rules, then the sidecar's extra rules, to fn.body."""
     b = fn.body
     for rule in pre_rules:
@@ -102,6 +100,9 @@ def body_to_c(fn, R, members=(), ref_params=(), ret_c="void", extra_rules=(), ma
         kw = rule[3] if len(rule) > 3 else {}
         b = R.sub("x:" + name, pat, rep, b, flags=kw.get("flags", re.S),
                   min_fires=kw.get("min", 1), max_fires=kw.get("max"))
+    if post_fn:
+        b = post_fn(b, R)
+    b = b.replace("@Q@", '"')      # rule replacements write C string quotes as @Q@
     if maythrow:
         b = insert_exc_checks(b, maythrow, ret_c, R, fn.name)
     return b
@@ -193,7 +194,7 @@ def ctor_inits_to_c(inits, R, skip=()):
 
 def emit(fn, cname, ret_c=None, self_type=None, members=(), param_types=None, contract="",
          loop_contracts=None, extra_rules=(), maythrow=(), init_skip=None, rules=None,
-         static=False, pre_body="", cast_types=CAST_TYPES, pre_rules=()):
+         static=False, pre_body="", cast_types=CAST_TYPES, pre_rules=(), self_name="self", post_fn=None):
     """Return (C text, Rules) for one function.  `contract` is placed between the declarator
     and the body; loop contracts between loop head and loop body."""
     R = rules or Rules()
@@ -203,14 +204,15 @@ def emit(fn, cname, ret_c=None, self_type=None, members=(), param_types=None, co
             ret_c = re.sub(r"\b%s\b" % kw, "", ret_c)
         ret_c = " ".join(ret_c.split()) or "void"
     refs = []
-    params = c_params(fn.params, refs, self_type, param_types)
+    params = c_params(fn.params, refs, self_type, param_types, self_name)
     if fn.inits and init_skip is not None:
         class _F:  # prepend translated initialisers to the body (same line as the brace)
             pass
         init_c = ctor_inits_to_c(fn.inits, R, skip=init_skip)
         fn = _copy_with_body(fn, " " + init_c + fn.body)
     body = body_to_c(fn, R, members=members, ref_params=refs, ret_c=ret_c,
-                     extra_rules=extra_rules, maythrow=maythrow, cast_types=cast_types, pre_rules=pre_rules)
+                     extra_rules=extra_rules, maythrow=maythrow, cast_types=cast_types, pre_rules=pre_rules,
+                     member_prefix=self_name + "->", post_fn=post_fn)
     body, nl = inject_loop_contracts(body, loop_contracts or {}, fn.name)
     R.fired["loop-contracts"] = nl
     contract = " ".join(contract.split())
